@@ -107,6 +107,21 @@ func isAtom(t string) bool {
 	return !strings.ContainsAny(t, " ()")
 }
 
+const preludeRelaxed = `(set-option :produce-models true)
+(set-logic ALL)
+(declare-sort Str 0)
+(declare-fun slen (Str) Int)
+(declare-fun sbyte (Str Int) Int)
+(declare-const str_empty Str)
+(assert (= (slen str_empty) 0))
+(declare-datatypes ((Slice 0)) (((mk_slice (sl_base Int) (sl_off Int) (sl_len Int) (sl_cap Int)))))
+(declare-datatypes ((Ptr 0)) (((pnil) (pcell (pc_ref Int)) (pfield (pf_ref Int) (pf_id Int)) (pelem (pe_base Int) (pe_idx Int)))))
+(define-fun tdiv ((a Int) (b Int)) Int (ite (>= a 0) (ite (> b 0) (div a b) (- (div a (- b)))) (ite (> b 0) (- (div (- a) b)) (div (- a) (- b)))))
+(define-fun trem ((a Int) (b Int)) Int (- a (* b (tdiv a b))))
+(define-fun imin ((a Int) (b Int)) Int (ite (<= a b) a b))
+(define-fun imax ((a Int) (b Int)) Int (ite (>= a b) a b))
+`
+
 const prelude = `(set-option :produce-models true)
 (set-logic ALL)
 (declare-sort Str 0)
@@ -127,8 +142,18 @@ const prelude = `(set-option :produce-models true)
 // render produces the full text of a query. goalNeg is the negated goal (or "" for a
 // satisfiability / cover query), reach the path condition.
 func (s *Script) render(upto int, extra []string, getValues []string) string {
+	return s.renderOpt(upto, extra, getValues, false)
+}
+
+// renderOpt with relaxed=true drops every quantified assumption: the query is weaker, so a
+// model of it is only a candidate counterexample (it must be confirmed by replay).
+func (s *Script) renderOpt(upto int, extra []string, getValues []string, relaxed bool) string {
 	var b bytes.Buffer
-	b.WriteString(prelude)
+	if relaxed {
+		b.WriteString(preludeRelaxed)
+	} else {
+		b.WriteString(prelude)
+	}
 	for _, d := range s.datatypes {
 		b.WriteString(d)
 		b.WriteByte('\n')
@@ -143,6 +168,9 @@ func (s *Script) render(upto int, extra []string, getValues []string) string {
 		case "def":
 			fmt.Fprintf(&b, "(define-fun %s () %s %s)\n", it.name, it.sort, it.body)
 		case "assume":
+			if relaxed && (strings.Contains(it.body, "(forall ") || strings.Contains(it.body, "(exists ")) && droppable(it.note) {
+				continue
+			}
 			if it.note != "" {
 				fmt.Fprintf(&b, "; %s\n", strings.ReplaceAll(it.note, "\n", " "))
 			}
@@ -531,4 +559,17 @@ func sortedKeys[V any](m map[string]V) []string {
 	}
 	sort.Strings(ks)
 	return ks
+}
+
+// droppable: quantified axioms generated by the engine (library models, frames, array
+// contents). Quantified facts written by the user (preconditions, invariants, assumed
+// postconditions) are kept in relaxed queries so that candidate models respect them.
+func droppable(note string) bool {
+	for _, p := range []string{"append: contents", "copy: contents", "sort:", "bytes of string(b)", "substring", "range ends", "allocation only grows",
+		"callee frame", "constant array", "[]byte(s)", "bytes.IndexByte first", "bytes.Equal", "loop frame invariant", "ghost counter", "axiom "} {
+		if strings.HasPrefix(note, p) {
+			return true
+		}
+	}
+	return false
 }
